@@ -312,7 +312,9 @@ func snapshotState(dir string, s *litefs.Store) nodeState {
 	st := nodeState{pos: dbPos(s)}
 	ents, _ := os.ReadDir(filepath.Join(dir, "dbs", "db", "ltx"))
 	for _, e := range ents {
-		st.files = append(st.files, e.Name())
+		if strings.HasSuffix(e.Name(), ".ltx") { // a file still being received has a temporary name: it is not part of the log
+			st.files = append(st.files, e.Name())
+		}
 	}
 	if im, err := lfs.ReadImage(filepath.Join(dir, "dbs", "db")); err == nil {
 		st.chk = im.Checksum()
